@@ -1443,3 +1443,83 @@ func sameConstOrValue(a, b ssa.Value) bool {
 	}
 	return ka.Value != nil && kb.Value != nil && constant.Compare(ka.Value, token.EQL, kb.Value)
 }
+
+// (registered in zz_shared.go for C05 and C19)
+// Two splice rules of the marshal code. (1) The bytes of the struct and of the map of unknown keywords are joined
+// with a comma only when the map has members: the guard in front of the splice is a length test, a nil test lets an
+// empty map produce "{...,}". (2) Nothing in the marshal closure writes text quoted the Go way (%q, strconv.Quote):
+// Go's escapes (\x7f, \a, \U0001...) are not JSON's, the output would not parse.
+func ruleMarshalSplices(c *Ctx, rule string) {
+	n := 0
+	for _, fn := range c.Closure(rule, "MAR").Sorted() {
+		if !c.P.InPkg(fn) {
+			continue
+		}
+		core.EachInstr(fn, func(i ssa.Instruction) {
+			call, ok := i.(*ssa.Call)
+			if !ok {
+				return
+			}
+			key := core.CalleeKey(&call.Call)
+			switch {
+			case key == "builtin.append" && len(call.Call.Args) == 2:
+				// append(x, ',')
+				comma := false
+				var elems []ssa.Value
+				if sl, ok := call.Call.Args[1].(*ssa.Slice); ok {
+					if al, ok := sl.X.(*ssa.Alloc); ok && al.Referrers() != nil {
+						for _, r := range *al.Referrers() {
+							if ia, ok := r.(*ssa.IndexAddr); ok && ia.Referrers() != nil {
+								for _, r2 := range *ia.Referrers() {
+									if s2, ok := r2.(*ssa.Store); ok && s2.Addr == ssa.Value(ia) {
+										elems = append(elems, s2.Val)
+									}
+								}
+							}
+						}
+					}
+				}
+				for _, v := range elems {
+					if k, ok := v.(*ssa.Const); ok && k.Value != nil && k.Value.Kind() == constant.Int {
+						if kv, _ := constant.Int64Val(k.Value); kv == ',' {
+							comma = true
+						}
+					}
+				}
+				if !comma {
+					return
+				}
+				n++
+				byLen, byNil := false, false
+				for _, g := range guardsOf(call) {
+					isMapTest := false
+					for _, v := range backSlice(g.Cond, 10) {
+						if _, isMap := v.Type().Underlying().(*types.Map); isMap {
+							isMapTest = true
+						}
+					}
+					if !isMapTest {
+						continue
+					}
+					if usesLen(g.Cond, 3) {
+						byLen = true
+					} else if _, k, _, ok := eqConst(g); ok && k.IsNil() {
+						byNil = true
+					}
+				}
+				c.R.Check(byLen || !byNil, rule, core.FuncName(originOf(fn))+":comma-splice", c.pos(call), "the comma between the two encodings is written only when the map has members", "the two encodings are joined with a comma under a test that the map is not nil, not that it has members: a Schema whose Extra is present but empty marshals to \"{...,}\", which is not JSON")
+			case key == "strconv.Quote" || key == "strconv.QuoteToASCII" || key == "strconv.AppendQuote":
+				n++
+				c.R.Bad(rule, core.FuncName(originOf(fn))+":go-quoting:"+key, c.pos(call), "the marshal code quotes text with "+key+": Go's escape sequences are not JSON's")
+			case strings.HasPrefix(key, "fmt.") && key != "fmt.Errorf":
+				for _, a := range call.Call.Args {
+					if f, ok := constString(a); ok && strings.Contains(f, "%q") {
+						n++
+						c.R.Bad(rule, core.FuncName(originOf(fn))+":go-quoting:"+key, c.pos(call), "the marshal code writes a string with the %q verb: Go quoting agrees with JSON on ordinary names only; a property name with a control character, DEL or invalid UTF-8 gets an escape (\\x7f, \\a) that JSON does not have, and Marshal fails or emits text that does not parse")
+					}
+				}
+			}
+		})
+	}
+	c.R.Floor(rule, "comma splices examined in the marshal closure", n, 1)
+}
